@@ -26,7 +26,7 @@ func TestVerifFootprint(t *testing.T) {
 	if err != nil {
 		t.Fatal(err)
 	}
-	sharedTypes := map[string]bool{"Classifier": true, "dictionary": true, "indexedDocument": true, "searchSet": true, "frequencyTable": true}
+	sharedTypes := map[string]bool{"Classifier": true, "dictionary": true, "indexedDocument": true, "searchSet": true, "frequencyTable": true, "TraceConfiguration": true}
 	typeName := func(e ast.Expr) string {
 		if s, ok := e.(*ast.StarExpr); ok {
 			e = s.X
